@@ -38,10 +38,25 @@ def gen_opaque(t):
     a('w_remove33', 'bool& r, %s& m' % M3, 'r = removeScaling(m, false);', d=3, k='recompose_ip')
     a('w_sansSS44', '%s& o, const %s& m' % (M4, M4), 'o = sansScalingAndShear(m, false);', d=4, k='ss')
     a('w_sansSS33', '%s& o, const %s& m' % (M3, M3), 'o = sansScalingAndShear(m, false);', d=3, k='ss')
+    a('w_removeSS44', 'bool& r, %s& m' % M4, 'r = removeScalingAndShear(m, false);', d=4, k='ss_ip')
+    a('w_removeSS33', 'bool& r, %s& m' % M3, 'r = removeScalingAndShear(m, false);', d=3, k='ss_ip')
     for ka in (0, 1):
         for ks in (0, 1):
             a('w_rs_%d%d' % (ka, ks), '%s& o, const %s& A, const %s& B' % (M4, M4, M4), 'o = computeRSMatrix(%s, %s, A, B);' % ('true' if ka else 'false', 'true' if ks else 'false'), k='rs', ka=ka, ks=ks)
     return tu
+
+def returned_flag(S, ok_c, success_when_true):
+    """in-place forms return a flag: true exactly when the extraction succeeded (a degenerate matrix is *reported*)"""
+    rv = S.out('a0', 0, 1, 'i8')
+    def val(x):
+        if x is T.TRUE: return 1
+        if x is T.FALSE: return 0
+        if x.op == 'const': return x.attr[1] & 1
+        return None
+    rs, rf = T.resolve(rv, {ok_c: bool(success_when_true)}), T.resolve(rv, {ok_c: not success_when_true})
+    if val(rs) != 1: return 'the flag returned after a successful extraction is %s, not true' % T.show(rs, 3)[:80]
+    if val(rf) != 0: return 'the flag returned after a failed extraction is %s, not false: a degenerate (zero-scale) matrix is not reported to the caller' % T.show(rf, 3)[:80]
+    return None
 
 def gen_shrt(t, orders=()):
     E = ELEM[t][0]
@@ -498,7 +513,7 @@ def main(rep, ws, tier):
             oid = '%s<%s>' % (name[2:], E)
             S = (an[ts] if name in ts.meta else R).get(name)
             if m['k'] == 'aux': continue
-            rule = {'recompose': 'R12.recompose', 'recompose_ip': 'R12.recompose', 'ss': 'R12.ss', 'rs': 'R12.rs', 'shrt': 'R12.shrt', 'shrtO': 'R12.shrt'}[m['k']]
+            rule = {'recompose': 'R12.recompose', 'recompose_ip': 'R12.recompose', 'ss': 'R12.ss', 'ss_ip': 'R12.ss', 'rs': 'R12.rs', 'shrt': 'R12.shrt', 'shrtO': 'R12.shrt'}[m['k']]
             if S is None:
                 rep.ob(oid, rule, UNDECIDED, R.err.get(name, '')); continue
             where = fn_where(S.fn)
@@ -521,7 +536,8 @@ def main(rep, ws, tier):
                     succ = [T.resolve(o, {ok_c: True}) for o in outs]; fail = [T.resolve(o, {ok_c: False}) for o in outs]
                     # which polarity is success?  on failure the matrix is the input
                     inm = [agg.slot_in(inbase, i, t) for i in range(nn)]
-                    if all(a_ is b_ for a_, b_ in zip(succ, inm)): succ, fail = fail, succ
+                    pol = True          # the polarity of the call's result that means success
+                    if all(a_ is b_ for a_, b_ in zip(succ, inm)): succ, fail = fail, succ; pol = False
                     if not all(a_ is b_ for a_, b_ in zip(fail, inm)):
                         rep.ob(oid, rule, VIOLATED, 'on extraction failure the result is not the unchanged input matrix', where); continue
                     ctx = P.Ctx()
@@ -554,14 +570,33 @@ def main(rep, ws, tier):
                             alt = matmul(matmul(H, Tm), Rm)
                             hint = ' (it equals Shear*Translation*Rotation: the rotation is applied on the wrong side of the translation)' if all(ctx.requal(ctx.rat(succ[k]), (ctx.reduce(alt[k // d][k % d]), ONE)) for k in range(nn)) else ''
                             bad = 'entry [%d][%d] = %s; Shear(shr)*Rotation(rot)*Translation(tran) has %s%s' % (i // d, i % d, P.show_rat(g, ctx)[:140], P.show_poly(ctx.reduce(want[i // d][i % d]), ctx)[:140], hint); break
-                    rep.ob(oid, rule, VIOLATED if bad else HOLDS, bad or 'Shear*Rotation*Translation of the extracted factors; input returned on failure', where)
-                elif m['k'] == 'ss':
+                    if not bad and ip: bad = returned_flag(S, ok_c, pol)
+                    rep.ob(oid, rule, VIOLATED if bad else HOLDS, bad or 'Shear*Rotation*Translation of the extracted factors; input returned on failure%s' % ('; the flag returned is the extraction\'s' if ip else ''), where)
+                elif m['k'] in ('ss', 'ss_ip'):
                     d = m['d']; nn = d * d
-                    outs = [S.out('a0', i * sz, sz, lt) for i in range(nn)]
+                    outs = [S.out('a1' if m['k'] == 'ss_ip' else 'a0', i * sz, sz, lt) for i in range(nn)]
                     call = find_call(outs[0], 'extractAndRemoveScalingAndShear')
                     if call is None:
                         rep.ob(oid, rule, VIOLATED, 'does not call extractAndRemoveScalingAndShear', where); continue
                     ok_c = [c for c in P.all_conds(outs[0]) if find_call(c, 'extractAndRemove') is not None]
+                    if m['k'] == 'ss_ip':
+                        # in place: the matrix is whatever the extraction left in it (on both outcomes); the outcome is in the flag
+                        rv = S.out('a0', 0, 1, 'i8')
+                        fl_c = [c for c in P.all_conds(rv) if find_call(c, 'extractAndRemove') is not None]
+                        left = out_atoms(call, 0, nn, sz, lt)
+                        inm = [agg.slot_in('a1', i, t) for i in range(nn)]
+                        bad = None
+                        for v in (True, False):
+                            got = [T.resolve(o, {c: v for c in ok_c}) for o in outs]
+                            if not (all(x is y for x, y in zip(got, left)) or (all(x is y for x, y in zip(got, inm)))):
+                                bad = 'the matrix is %s, neither what extractAndRemoveScalingAndShear left in it nor the input' % T.show(got[0], 3)[:120]
+                        if not bad and len(fl_c) != 1: bad = 'the flag returned (%s) does not depend on the result of extractAndRemoveScalingAndShear: a degenerate (zero-scale) matrix is not reported to the caller' % T.show(rv, 3)[:80]
+                        if not bad:
+                            # the call's own result is the condition (true = extraction succeeded)
+                            pol = fl_c[0].op == 'call'
+                            if not pol and not (fl_c[0].op == 'not' and fl_c[0].args[0].op == 'call'): raise vg.Unsupported('flag condition of shape %s' % fl_c[0].op)
+                            bad = returned_flag(S, fl_c[0], pol)
+                        rep.ob(oid, rule, VIOLATED if bad else HOLDS, bad or 'in place: the matrix left by extractAndRemoveScalingAndShear, and its flag', where); continue
                     if not ok_c:
                         rep.ob(oid, rule, VIOLATED, 'the result of extractAndRemoveScalingAndShear is not tested', where); continue
                     a_ = [T.resolve(o, {ok_c[0]: True}) for o in outs]; b_ = [T.resolve(o, {ok_c[0]: False}) for o in outs]
